@@ -90,7 +90,7 @@ def digest(job):
     core.setup_imports()
     from campaigns.c06 import run_digest
 
-    return run_digest(job["scenario"], job.get("junk", 0))
+    return run_digest(job["scenario"], job.get("junk", 0), holder={})
 
 
 if __name__ == "__main__":
